@@ -228,6 +228,8 @@ class RefDecoder:
                 raise RefInvalid("graph start outside a GRAPHS stream")
             if row[1] is None:
                 raise RefInvalid("graph start without graph name")
+            if self.in_graph:
+                raise RefInvalid("graph start while the previous graph is still open (missing graph end)")
             self.graph = self.term(row[1])
             self.audit["graph_starts"] += 1
             if self._last_graph_closed is not None and self._last_graph_closed == self.graph:
@@ -279,6 +281,8 @@ def decode(data: bytes, delimited=None):
         raise RefInvalid(f"wire: {e}") from None
     if dec.options is None:
         raise RefInvalid("no options row")
+    if dec.in_graph:
+        raise RefInvalid("stream ends inside an open graph (missing graph end)")
     return [norm_item(i) for i in dec.items], dec.options, dec
 
 
